@@ -18,6 +18,9 @@ def one(args):
 
 
 def main():
+    full = '--full' in sys.argv
+    if full:
+        sys.argv.remove('--full')
     patch = sys.argv[1]
     props = sys.argv[2:] or ['C%02d' % i for i in range(1, 21)]
     ov = selfval.patch_overrides(patch)
@@ -30,7 +33,9 @@ def main():
     print('%s: files=%s alarms=%s' % (os.path.basename(patch), sorted(ov), ' '.join('%s=%d' % (p, rc) for p, rc, _ in bad) or '-'))
     for p, rc, out in bad:
         for line in out.split('\n'):
-            if line.startswith(('VIOLATION', 'ANALYSIS-ERROR', '  emd/')):
+            if full:
+                print('   ', line[:400])
+            elif line.startswith(('VIOLATION', 'ANALYSIS-ERROR', '  emd/')):
                 print('   ', line[:300])
     return 1 if bad else 0
 
